@@ -18,6 +18,6 @@ for sid in seeds:
         rc, out = sh(f"/venv/bin/python -m sa.run {prop} --tier quick --repo {wt} --no-evidence", cwd=str(VERIF))
         print(f"== {sid} vs {prop}: exit {rc}")
         for l in out.splitlines():
-            if l.startswith(("FINDING", "ANALYSIS-ERROR", "    via", "UNDECIDED")) or "Error" in l: print("   ", l[:400])
+            if l.startswith(("FINDING", "ANALYSIS-ERROR", "UNDECIDED")) or "Error" in l: print("   ", l[:300])
     finally:
         sh(f"git -C /repo worktree remove --force {wt}"); shutil.rmtree(wt, ignore_errors=True)
